@@ -44,4 +44,43 @@ theorem accepted_addenda99_return_code (c : Ctx) (rc : Str)
 
 example : knownReturnCodes.contains "R01" = true ∧ knownReturnCodes.contains "R93" = false := by decide +kernel
 
+
+/-! ## notifications of change -/
+
+def changeCodeTail : List Prog :=
+  [(.bind2 "_" "ok" (.call1 "dict.changeCodeDict" (.fld "ChangeCode"))),
+   (.ite (.not (.var "ok")) (.ret (.mkErr "ChangeCode")) .skip),
+   (.ite (.eq (.fld "CorrectedData") (.str "")) (.ret (.mkErr "CorrectedData")) .skip),
+   (.ret .nil)]
+
+theorem addenda98_validate_shape :
+    stmts v_Addenda98_Validate = Ach.Props.Accepted.frontOf v_Addenda98_Validate 4 ++ changeCodeTail ∧
+    (Ach.Props.Accepted.frontOf v_Addenda98_Validate 4).all (fun q => rejectOnly q && noAssign q) = true := by
+  decide +kernel
+
+def knownChangeCodes : List String := (dictKeys.lookup "changeCodeDict").getD []
+
+/-- for every Addenda98 value: `Addenda98.Validate()` (translated from the source on this run) returns nil only if the
+change code is a key of `changeCodeDict` and the corrected data is not empty -/
+theorem accepted_addenda98_change_code (c : Ctx) (cc cdata : Str)
+    (hc : lookup c.fields (joinPath c.recv "ChangeCode") = .str cc)
+    (hd : lookup c.fields (joinPath c.recv "CorrectedData") = .str cdata)
+    (ha : run c v_Addenda98_Validate = .accept) :
+    knownChangeCodes.contains (String.ofList cc) = true ∧ cdata ≠ [] := by
+  have hres := Ach.Props.Validators.accept_ret c _ ha
+  obtain ⟨hs, hall⟩ := addenda98_validate_shape
+  obtain ⟨pre, h⟩ := accept_reaches c _ _ _ hs (by simp [changeCodeTail]) hall hres
+  have hdict : builtin1 c.ext "dict.changeCodeDict" (Val.str cc) =
+      .pair (.int 0) (.bool (knownChangeCodes.contains (String.ofList cc))) := by
+    have hk : dictKeys.lookup "changeCodeDict" = some knownChangeCodes := by decide +kernel
+    have hdrop : (("dict.changeCodeDict" : String).drop 5).copy = "changeCodeDict" := by decide +kernel
+    have hsw : ("dict.changeCodeDict" : String).startsWith "dict." = true := by decide +kernel
+    simp [builtin1, hsw, hdrop, hk]
+  have he : ("" : String).toList = [] := by decide
+  by_cases hin : String.ofList cc ∈ knownChangeCodes
+  · by_cases hnd : cdata = []
+    · simp [changeCodeTail, seqs, exec, eval, hc, hd, hdict, hin, hnd, he, lookup, cmpVals, scopeExit] at h
+    · exact ⟨by simpa using hin, hnd⟩
+  · simp [changeCodeTail, seqs, exec, eval, hc, hd, hdict, hin, lookup, scopeExit] at h
+
 end Ach.Props.AcceptedAddenda
